@@ -391,7 +391,14 @@ impl ZchState {
                         kb.press_key(OsCode::KEY_BACKSPACE)?;
                         kb.release_key(OsCode::KEY_BACKSPACE)?;
                     }
-                    self.zchd.zchd_characters_to_delete_on_next_activation = 0;
+                    // The common prefix stays on screen and is not typed again below, but it is
+                    // part of what the next activation in this hold has to erase.
+                    self.zchd.zchd_characters_to_delete_on_next_activation = a
+                        .zch_output
+                        .iter()
+                        .take(common_prefix_len_from_past_activation as usize)
+                        .map(|o| o.output_char_count())
+                        .sum();
                     self.zchd.zchd_prior_activation_output_count =
                         ZchOutput::display_len(&a.zch_output);
                 } else {
